@@ -104,7 +104,91 @@ def h04a(c, steps=STEPS, max_frags=1):
             c.cover("sp-matched")
 
 
+def h04b(c, K=2):
+    """K-update histories through the real FlumineSimulation._process_market_books (zero latency) with symbolic books (sizes,
+    traded volume, suspension / version change, SP reconciliation, runner removal) and a symbolic script of strategy actions; an
+    auditing strategy checks the size invariants of every limit order at every callback (process_orders and process_market_book)"""
+    from flumine.events import events
+    with cm.config_set(simulated=True, place_latency=0.0, cancel_latency=0.0, update_latency=0.0, replace_latency=0.0):
+        state = {"k": 0, "n": 0}
+
+        def audit(market, where):
+            for o in market.blotter:
+                if o.order_type.ORDER_TYPE.name != "LIMIT" or o.status == OrderStatus.VIOLATION:
+                    continue
+                sm = o.simulated
+                tag = "u%d.%s" % (state["k"], where)
+                tot = sm.size_matched + sm.size_remaining + sm.size_cancelled + sm.size_lapsed + sm.size_voided
+                c.ob("%s.conservation" % tag, tot == o.order_type.size)
+                c.ob("%s.remaining>=0" % tag, sm.size_remaining >= 0)
+                c.ob("%s.matched>=0" % tag, sm.size_matched >= 0)
+                if o.status != OrderStatus.PENDING:
+                    c.ob("%s.complete<=>nothing-remains" % tag, o.complete == (sm.size_remaining == 0) if isinstance(sm.size_remaining == 0, bool) else
+                         c.And(c.Implies(o.complete, sm.size_remaining == 0), c.Implies(sm.size_remaining == 0, o.complete)), status=o.status.name)
+                state["n"] += 1
+
+        def pmb(strategy, market, market_book):
+            audit(market, "process_market_book")
+            k = state["k"]
+            act = c.choose("action%d" % k, ["none", "place-rest", "place-cross", "place-fok", "cancel-part", "cancel-all", "replace", "update"])
+            live = [o for o in market.blotter if o.status == OrderStatus.EXECUTABLE and o.bet_id]
+            if act.startswith("place"):
+                side = c.choose("side%d" % k, ["BACK", "LAY"])
+                size = c.cents("size%d" % k, 1, 100000)
+                if act == "place-rest":
+                    o = cm.mk_limit(strategy, side, 2.0, size, persistence=c.choose("persistence%d" % k, ["LAPSE", "MARKET_ON_CLOSE"]))
+                elif act == "place-cross":
+                    o = cm.mk_limit(strategy, side, 1.5 if side == "BACK" else 3.0, size)
+                else:
+                    mfs = c.cents("min_fill%d" % k, 1, 100000) if c.choose("min_fill_given%d" % k, [False, True]) else None
+                    o = cm.mk_limit(strategy, side, 1.5 if side == "BACK" else 3.0, size, tif="FILL_OR_KILL", mfs=mfs)
+                market.place_order(o, force=True)
+                c.cover("placed")
+            elif live:
+                o = live[0]
+                if act == "cancel-part":
+                    red = c.cents("reduction%d" % k, 1, 100000)
+                    if c.is_true(red <= o.size_remaining):
+                        market.cancel_order(o, red, force=True)
+                elif act == "cancel-all":
+                    market.cancel_order(o, force=True)
+                elif act == "replace":
+                    market.replace_order(o, 2.02 if o.order_type.price != 2.02 else 2.04, force=True)
+                elif act == "update":
+                    market.update_order(o, "PERSIST" if o.order_type.persistence_type != "PERSIST" else "LAPSE", force=True)
+                c.cover("amended")
+
+        def po(strategy, market, orders):
+            audit(market, "process_orders")
+
+        fl, (client,), (strategy,) = cm.new_sim(hooks=dict(process_market_book=pmb, process_orders=po))
+        tv = c.cents("tv0", 0, 100000)
+        removed = False
+        with fl.simulated_datetime:
+            for k in range(K + 1):
+                state["k"] = k
+                ev = c.choose("book%d" % k, ["open", "traded", "suspended-new-version", "sp-reconciled", "runner-removed"]) if k > 0 else "open"
+                if ev == "traded":
+                    tv = tv + c.cents("traded_delta%d" % k, 1, 200000)
+                if ev == "runner-removed":
+                    removed = True
+                r1 = cm.runner(1, status="REMOVED" if removed else "ACTIVE", adjustment_factor=10.0 if removed else None,
+                               atb=[{"price": 1.9, "size": c.cents("atb%d" % k, 1, 100000)}], atl=[{"price": 2.1, "size": c.cents("atl%d" % k, 1, 100000)}],
+                               tv=[{"price": 2.0, "size": tv}])
+                if ev == "sp-reconciled":
+                    r1.sp = cm.SP(actualSP=c.pick("actual_sp%d" % k, [1.5, 2.0, 7.4]))
+                bk = cm.book([r1, cm.runner(2)], version=7 + (1 if ev == "suspended-new-version" else 0), pt_ms=cm.T0_MS + 1000 * k,
+                             status="SUSPENDED" if ev == "suspended-new-version" else "OPEN", bsp_reconciled=(ev == "sp-reconciled"), inplay=(ev == "sp-reconciled"))
+                with c.guard("update%d:%s" % (k, ev)):
+                    fl._process_market_books(events.MarketBookEvent([bk]))
+        if state["n"]:
+            c.cover("audited")
+
+
 HARNESSES = [
+    Harness("H04b", h04b, quick=dict(K=1), thorough=dict(K=2), pattern="P3 bounded history (auditing strategy)", requires=["audited", "placed", "amended"],
+            wall_s=(300, 3000), max_paths=(400000, 6000000), selfcheck=False,
+            outside=["more than K+1 updates; one price level per side; order prices on 5 ladder points (sizes, traded volumes: every 2dp value)"]),
     Harness("H04a", h04a, quick=dict(max_frags=1), thorough=dict(max_frags=2), pattern="P2 inductive step",
             requires=["replacement-created", "voided", "lapsed", "passive-fill", "cancelled", "sp-matched"], wall_s=(300, 3000),
             max_paths=(150000, 3000000),
